@@ -552,12 +552,12 @@ def comparison_forms(ctx, fn):
     for d in sorted(defs):
         b = ctx.body(d)
         for blk in sorted(b.reach):
-            for s in b.stmts(blk):
+            for si, s in enumerate(b.stmts(blk)):
                 rv = s.get('rv')
                 if not rv or s.get('x', '').startswith('m:'):
                     continue
                 if rv['r'] == 'bin' and rv['op'] in ('Lt', 'Le', 'Gt', 'Ge', 'Eq', 'Ne'):
-                    x = b._pexpr_rvalue(rv, 0, frozenset())
+                    x = b._pexpr_rvalue(rv, 0, frozenset(), (blk, si))
                     a, c = canon(x[2], 0, 1), canon(x[3], 0, 1)
                     out.setdefault(tuple(sorted((a, c))), set()).add(canon(x, 0, 1))
             t = b.term(blk)
@@ -565,7 +565,7 @@ def comparison_forms(ctx, fn):
                 decl = t.get('fn') or ''
                 op = decl.split('::')[-1]
                 if op in ('lt', 'le', 'gt', 'ge', 'eq', 'ne') and ('PartialOrd' in decl or 'PartialEq' in decl) and len(t.get('args', [])) == 2:
-                    a, c = canon(b.pexpr_operand(t['args'][0]), 0, 1), canon(b.pexpr_operand(t['args'][1]), 0, 1)
+                    a, c = canon(b.pexpr_operand(t['args'][0], 0, frozenset(), (blk, 't')), 0, 1), canon(b.pexpr_operand(t['args'][1], 0, frozenset(), (blk, 't')), 0, 1)
                     key = tuple(sorted((a, c)))
                     form = {'lt': '(%s < %s)', 'le': '(%s <= %s)', 'gt': '(%s < %s)', 'ge': '(%s <= %s)', 'eq': '(%s == %s)', 'ne': '(%s != %s)'}[op]
                     if op in ('gt', 'ge'):
